@@ -96,6 +96,27 @@ def package_mutants(rng, ast, model, n):
         return o
 
     orders = [v for (k, v) in snap if k == "orders"][0]
+    # digit shifts between ADJACENT numeric fields (the concatenation of the two decimal texts is unchanged):
+    # a checksum computed over undelimited field texts cannot see these
+    hdr = ["price", "visible_quantity", "hidden_quantity", "order_count"]
+    for a_key, b_key in zip(hdr, hdr[1:]):
+        av = [v for (k, v) in snap if k == a_key][0]
+        bv = [v for (k, v) in snap if k == b_key][0]
+        if not (isinstance(av, int) and isinstance(bv, int)) or av < 0 or bv < 0:
+            continue
+        sa, sb = str(av), str(bv)
+        cands = []
+        for k in range(1, len(sb)):
+            if len(sb[k:]) == 1 or sb[k] != "0":
+                cands.append((sa + sb[:k], sb[k:]))
+        for k in range(1, len(sa)):
+            if sa[-k] != "0" or k == len(sb) + 0:
+                cands.append((sa[:-k], sa[-k:] + sb))
+        cands.append((sa + sb, "0")) if sb != "0" else None
+        for (x, y) in cands[:6]:
+            if int(x) <= U64 and int(y) <= U64 and (int(x), int(y)) != (av, bv):
+                out.append(("digit_shift_%s_%s" % (a_key, b_key),
+                            with_snapshot(set_key(set_key(snap, a_key, int(x)), b_key, int(y)))))
     for _ in range(n):
         r = rng.random()
         if r < 0.10:
@@ -215,6 +236,24 @@ def run(tier, seed, replay=None):
                 continue
             base_text = unhx(r["base_text_hex"])
             mut = unhx(r["mutant_text_hex"])
+            if mut == base_text and r.get("original", "").startswith("ok "):
+                # an UNTOUCHED package: rebuild it from the level content with the implementation under test
+                # (the stored text carries the checksum of the code that produced it)
+                content = r["original"].split(" ")[1]
+                price = int(content.split(";")[0])
+                orders = content[content.index("["):]
+                x = impl.ask("PKGNEW %d %s" % (price, orders))
+                if x.startswith("ok "):
+                    pkg, t1, t2, payload = x[3:].split(" ")
+                    base_text = mut = unhx(t1)
+                    r = dict(r, original=None)
+                    # same judgement as the main run: the stored checksum must be SHA-256 of the payload
+                    digest = hashlib.sha256(unhx(payload)).hexdigest()
+                    stored = unhx(pkg.split(";")[1][1:]).decode()
+                    if stored != digest:
+                        viol.append(dict(kind="restore", how="untouched package", base_text_hex=t1, mutant_text_hex=t1, profile=prof,
+                                         checksum_in_package=stored, sha256_of_payload=digest,
+                                         why="the checksum stored in a fresh package is not the SHA-256 of its snapshot payload"))
             base_ans = r.get("original") or impl.ask("BASE " + hx(base_text))
             a = impl.ask("RESTORE " + hx(mut))
             evals += 1
@@ -412,7 +451,9 @@ def run(tier, seed, replay=None):
               "%d failures" % len(viol))
 
     if viol:
-        viol.sort(key=lambda d: (d.get("kind") != "restore" or not d.get("mutant_text_hex"),
+        # a tampered package that was ACCEPTED with other content is the most telling replay: put those first
+        viol.sort(key=lambda d: ("tampered package was accepted" not in str(d.get("why")),
+                                 d.get("kind") != "restore" or not d.get("mutant_text_hex"),
                                  len(d.get("mutant_text_hex") or "") + len(d.get("base_text_hex") or "")))
         d = dict(viol[0])
         if d.get("mutant_text_hex"):
